@@ -37,7 +37,7 @@ func c01Params(e *Env) fwdParams {
 	c := e.C
 	p := fwdParams{
 		Hosts:        1 + c.Choose("hosts", 4),
-		NumConns:     1 + c.Choose("numconns", 2),
+		NumConns:     []int{1, 2, 1, 2, 3, 4}[c.Choose("numconns", 6)],
 		Clients:      1 + c.Choose("clients", 4),
 		OpsPerClient: 5 + c.Choose("ops", 20),
 		MaxInflight:  1 + c.Choose("inflight", 8),
